@@ -360,14 +360,13 @@ def ts_reparent_children(m, a, c):
         if inside:
             bad(st, "reparent_children: new parent %s lies inside a moved child of %s" % (describe(st, p), describe(st, n)))
             return UNIT
+    # the children move as they are (no text merging at the seam: that is what RcDom does, and what makes an adjacency
+    # produced by the tree builder visible to the C06 check)
     kids = list(st["nodes"][n]["children"])
     st["nodes"][n]["children"] = []
     for k in kids:
-        st["nodes"][k]["parent"] = None
-        if st["nodes"][k]["kind"] == "text":
-            insert(st, p, None, Enum("NodeOrText", "AppendText", 1, [Tendril(st["nodes"][k]["text"])]), "reparent_children")
-        else:
-            insert(st, p, None, Enum("NodeOrText", "AppendNode", 0, [k]), "reparent_children")
+        st["nodes"][k]["parent"] = p
+        st["nodes"][p]["children"].append(k)
     return UNIT
 
 
